@@ -25,10 +25,7 @@ Print Assumptions C21_render_parse.
 (* a format renders nothing exactly when it cannot express the indicator: sdmx_gregorian x {S, Q, W} *)
 Theorem C21_render_error_iff_inexpressible : forall f p,
   render f p = None <-> (f = FGregorian /\ (p_ind p = IS \/ p_ind p = IQ \/ p_ind p = IW)).
-Proof.
-  intros f p. rewrite render_none_iff. destruct f, (p_ind p); simpl; split; intros H; try discriminate; try reflexivity;
-    try (split; [reflexivity | tauto]); destruct H as [H1 H2]; try discriminate; destruct H2 as [H2 | [H2 | H2]]; discriminate.
-Qed.
+Proof. exact render_none_iff_gregorian. Qed.
 Print Assumptions C21_render_error_iff_inexpressible.
 
 (* the internal (canonical) representation is itself an accepted input denoting the same period *)
